@@ -66,6 +66,9 @@ LITERAL = [
     ('{[#A][#X][#B]}.{#A=F[$],#X=[$][C;x=@x](Cl)([H])[$],#B=O[$]}', 'F[C;x=@x](Cl)([H])O'),
     # more than ten fragments, the marked substituent and the double bond in fragments 10 and 11
     ('{[#E][#M]|8[#L][#B]}.{#E=C[>],#M=[<]C[>],#L=[<]N@1[$],#B=[$]@1C=C@2F}', 'CCCCCCCCCN@1C=C@2F'),
+    # the cut is a shared atom (squash operator): the second fragment states the double-bond carbon again and carries the
+    # marked substituent, so the 4-tuples must name the surviving atom (seeded change C15-A10)
+    ('{[#A][#B]}.{#A=F@1C=C@2[!],#B=[!]C@2F}', 'F@1C=C@2F'),
 ]
 
 
